@@ -1026,3 +1026,612 @@ Proof.
       * exact Hsuf.
       * exact Hrest.
 Qed.
+
+(* ------------------------------------------------------------------------------------------ *)
+(* getSchema on the tree of a universe                                                         *)
+
+Lemma find_file_app p a b :
+  find_file p (a ++ b) = match find_file p a with Some c => Some c | None => find_file p b end.
+Proof. induction a as [|[q c] a IH]; simpl; auto. destruct (comps_eqb p q); auto. Qed.
+
+Lemma find_file_none p l : (forall f, In f l -> fst f <> p) -> find_file p l = None.
+Proof.
+  induction l as [|[q c] l IH]; simpl; intros H; auto.
+  destruct (comps_eqb p q) eqn:E.
+  - apply comps_eqb_eq in E. exfalso. apply (H (q, c)); simpl; auto.
+  - apply IH. intros f Hf. apply H. auto.
+Qed.
+
+Lemma find_file_map {A} (f : A -> list bytes * bytes) x l :
+  In x l -> (forall y, In y l -> fst (f y) = fst (f x) -> f y = f x) ->
+  find_file (fst (f x)) (map f l) = Some (snd (f x)).
+Proof.
+  induction l as [|a l IH]; simpl; intros Hin Hinj; [tauto|].
+  destruct (f a) as [q c] eqn:E. destruct (comps_eqb (fst (f x)) q) eqn:Ec.
+  - apply comps_eqb_eq in Ec. assert (H : f a = f x) by (apply Hinj; [auto|rewrite E; simpl; auto]).
+    rewrite E in H. rewrite <- H. reflexivity.
+  - destruct Hin as [->|Hin]; [rewrite E in Ec; simpl in Ec; rewrite comps_eqb_refl in Ec; discriminate|].
+    apply IH; auto.
+Qed.
+
+Lemma read_file_found t p c : find_file p (ft_files t) = Some c -> read_file t p = FsOk c.
+Proof. intros H. unfold read_file. rewrite H. reflexivity. Qed.
+
+Lemma nodup_b_NoDup l : nodup_b l = true -> NoDup l.
+Proof.
+  induction l as [|x l IH]; simpl; [constructor|]. rewrite andb_true_iff, negb_true_iff, mem_b_false.
+  intros [H1 H2]. constructor; auto.
+Qed.
+
+Lemma NoDup_map_inj {A B} (f : A -> B) l x y : NoDup (map f l) -> In x l -> In y l -> f x = f y -> x = y.
+Proof.
+  induction l as [|a l IH]; simpl; [tauto|]. intros Hnd Hx Hy Hf. inversion Hnd as [|? ? Hn Hnd']; subst.
+  destruct Hx as [->|Hx]; destruct Hy as [->|Hy]; auto.
+  - exfalso. apply Hn. rewrite Hf. apply in_map. exact Hy.
+  - exfalso. apply Hn. rewrite <- Hf. apply in_map. exact Hx.
+Qed.
+
+Lemma dedup_In x l : In x (dedup l) <-> In x l.
+Proof.
+  induction l as [|a l IH]; simpl; [tauto|].
+  destruct (mem_b a l) eqn:E; simpl; rewrite IH; [|tauto].
+  apply mem_b_In in E. split; [auto|]. intros [<-|H]; auto.
+Qed.
+
+Lemma dot_msg_noslash : noslash s_dot_msg. Proof. reflexivity. Qed.
+
+Lemma base_name_index n : noslash n -> base_name (s_msg_slash ++ n ++ s_dot_msg) = n ++ s_dot_msg.
+Proof.
+  intros Hn. unfold base_name.
+  change (s_msg_slash ++ n ++ s_dot_msg) with (s_msg_word ++ x2f :: n ++ s_dot_msg).
+  rewrite split_sep by reflexivity. rewrite split_nosep; [reflexivity|].
+  rewrite contains_byte_app, Hn. reflexivity.
+Qed.
+
+Lemma lookup_In defs q d : lookup defs q = Some d -> In d defs /\ type_of d = q.
+Proof.
+  induction defs as [|a l IH]; simpl; [discriminate|].
+  destruct (bytes_eqb (type_of a) q) eqn:E.
+  - intros H. injection H as <-. apply bytes_eqb_eq in E. auto.
+  - intros H. destruct (IH H). auto.
+Qed.
+
+Section Universe.
+  Variable dir : list bytes.
+  Variable defs : list mdef.
+  Hypothesis Hwf : wf_defs defs = true.
+
+  Let T := tree_of dir defs.
+
+  Lemma wf_parts :
+    (forall d, In d defs -> mdef_ok d = true) /\ NoDup (map type_of defs) /\
+    (forall d q, In d defs -> In q (refs_of d) -> In q (map type_of defs)).
+  Proof.
+    unfold wf_defs in Hwf. rewrite !andb_true_iff in Hwf. destruct Hwf as [[H1 H2] H3].
+    split; [intros d Hd; exact (forallb_In _ _ _ H1 Hd)|]. split; [apply nodup_b_NoDup; exact H2|].
+    intros d q Hd Hq. pose proof (forallb_In _ _ _ H3 Hd) as H. cbv beta in H.
+    apply mem_b_In. exact (forallb_In _ _ _ H Hq).
+  Qed.
+
+  Lemma def_parts d : In d defs ->
+    pkg_ok (md_pkg d) = true /\ pkg_ok (md_name d) = true /\ is_primitive (md_name d) = false /\
+    forallb dline_ok (md_lines d) = true.
+  Proof.
+    intros Hd. destruct wf_parts as (H & _). specialize (H d Hd). unfold mdef_ok in H.
+    rewrite !andb_true_iff in H. destruct H as [[H1 H2] H3]. destruct (name_pkg_ok _ H2). auto.
+  Qed.
+
+  Lemma type_of_inj d d' : In d defs -> In d' defs -> type_of d = type_of d' -> d = d'.
+  Proof. destruct wf_parts as (_ & H & _). apply NoDup_map_inj. exact H. Qed.
+
+  Lemma lookup_type d : In d defs -> lookup defs (type_of d) = Some d.
+  Proof.
+    intros Hd. assert (H : forall l, incl l defs -> In d l -> lookup l (type_of d) = Some d).
+    { induction l as [|a l IH]; simpl; [tauto|]. intros Hincl Hin.
+      destruct (bytes_eqb (type_of a) (type_of d)) eqn:E.
+      - apply bytes_eqb_eq in E. f_equal. apply type_of_inj; auto. apply Hincl. left. reflexivity.
+      - destruct Hin as [->|Hin]; [rewrite bytes_eqb_refl in E; discriminate|].
+        apply IH; auto. intros x Hx. apply Hincl. right. exact Hx. }
+    apply H; auto. apply incl_refl.
+  Qed.
+
+  Lemma type_fields d : In d defs -> fields_by 47 (type_of d) = [md_pkg d; s_msg_word; md_name d].
+  Proof.
+    intros Hd. destruct (def_parts d Hd) as (H1 & H2 & _). unfold type_of.
+    apply fields_join_slash. pose proof (nm_comp_ok _ H1). pose proof (nm_comp_ok _ H2). pose proof msg_comp_ok. fall.
+  Qed.
+
+  Lemma type_split d : In d defs -> split_byte 47 (type_of d) = [md_pkg d; s_msg_word; md_name d].
+  Proof.
+    intros Hd. destruct (def_parts d Hd) as (H1 & H2 & _). unfold type_of.
+    apply split_join_slash; [discriminate|].
+    pose proof (nm_comp_ok _ H1) as [_ ?]. pose proof (nm_comp_ok _ H2) as [_ ?]. pose proof msg_noslash. fall.
+  Qed.
+
+  Lemma index_line_no_nl d : In d defs -> contains_byte 10 (index_line d) = false.
+  Proof.
+    intros Hd. destruct (def_parts d Hd) as (_ & H2 & _). apply nm_props in H2.
+    destruct H2 as (_ & _ & _ & _ & _ & _ & _ & H2). unfold index_line.
+    rewrite !contains_byte_app, (vis_no10 _ H2). reflexivity.
+  Qed.
+
+  Lemma find_line_index d : forall ds, incl ds defs -> In d ds ->
+    find_line (md_name d) (map index_line ds) = Some (index_line d).
+  Proof.
+    induction ds as [|x r IH]; simpl; [tauto|]. intros Hincl Hin.
+    assert (Hx : In x defs) by (apply Hincl; left; reflexivity).
+    destruct (def_parts x Hx) as (_ & Hn & _). apply nm_props in Hn. destruct Hn as (_ & Hn & _).
+    unfold index_line at 1. rewrite base_name_index by exact Hn.
+    destruct (bytes_eqb (md_name x ++ s_dot_msg) (md_name d ++ s_dot_msg)) eqn:E.
+    - apply bytes_eqb_eq, app_inv_tail in E. unfold index_line. rewrite E. reflexivity.
+    - destruct Hin as [->|Hin]; [rewrite bytes_eqb_refl in E; discriminate|].
+      apply IH; auto. intros y Hy. apply Hincl. right. exact Hy.
+  Qed.
+
+  Lemma index_file_found d : In d defs ->
+    find_file (idx_path dir (md_pkg d)) (ft_files T) = Some (index_text defs (md_pkg d)).
+  Proof.
+    intros Hd. destruct (def_parts d Hd) as (H1 & _). pose proof (nm_props _ H1) as (P1 & P2 & P3 & P4 & _).
+    rewrite idx_path_eq by (split; auto). apply bytes_eqb_false in P4. rewrite P4.
+    unfold T, tree_of. cbn [ft_files]. rewrite find_file_app.
+    change (dir ++ [s_share; s_ament_index; s_resource_index; s_rosidl; md_pkg d])
+      with (fst (index_file dir defs (md_pkg d))).
+    rewrite (find_file_map (index_file dir defs) (md_pkg d) (pkgs defs)); [reflexivity| |].
+    - apply dedup_In. apply in_map. exact Hd.
+    - intros y _ Hy. unfold index_file in Hy. cbn [fst] in Hy. apply app_inv_head in Hy.
+      injection Hy as ->. reflexivity.
+  Qed.
+
+  Lemma def_path_eq d : In d defs ->
+    join_dir dir [s_share; md_pkg d; index_line d] = fst (def_file dir d).
+  Proof.
+    intros Hd. destruct (def_parts d Hd) as (H1 & H2 & _).
+    pose proof (nm_props _ H1) as (P1 & P2 & P3 & P4 & _). pose proof (nm_props _ H2) as (N1 & N2 & _).
+    unfold join_dir. cbn [map concat]. change (split_byte 47 s_share) with [s_share].
+    rewrite (split_nosep 47 _ P2). unfold index_line.
+    change (s_msg_slash ++ md_name d ++ s_dot_msg) with (s_msg_word ++ x2f :: md_name d ++ s_dot_msg).
+    rewrite split_sep by reflexivity. rewrite split_nosep by (rewrite contains_byte_app, N2; reflexivity).
+    cbn [app].
+    assert (L : forall X : bytes, md_name d ++ s_dot_msg = X -> (length X <= 2)%nat -> False).
+    { intros X <-. rewrite app_length. change (length s_dot_msg) with 4. lia. }
+    rewrite !clean_rooted_push; auto;
+      try (intro X; vm_compute in X; discriminate X);
+      try (intro X; apply (L _ X); simpl; lia).
+    cbn [clean_rooted rev app]. rewrite rev_involutive, <- !app_assoc. reflexivity.
+  Qed.
+
+  Lemma def_file_found d : In d defs -> find_file (fst (def_file dir d)) (ft_files T) = Some (text_of d).
+  Proof.
+    intros Hd. unfold T, tree_of. cbn [ft_files]. rewrite find_file_app, find_file_none.
+    - rewrite (find_file_map (def_file dir) d defs); [reflexivity|exact Hd|].
+      intros y Hy Hp. unfold def_file in Hp. cbn [fst] in Hp. apply app_inv_head in Hp.
+      injection Hp as Hp1 Hp2. apply app_inv_tail in Hp2.
+      assert (y = d) by (apply type_of_inj; auto; unfold type_of; rewrite Hp1, Hp2; reflexivity).
+      subst. reflexivity.
+    - intros f Hf. apply in_map_iff in Hf. destruct Hf as (p & <- & _).
+      unfold index_file, def_file. cbn [fst]. intros X. apply app_inv_head in X. discriminate X.
+  Qed.
+
+  (* the definition file of a type of the universe is found *)
+  Theorem get_schema_universe d : In d defs -> get_schema T [dir] (type_of d) = Ok (text_of d).
+  Proof.
+    intros Hd. unfold get_schema. rewrite (type_fields d Hd). cbn [get_schema_dirs].
+    fold (idx_path dir (md_pkg d)). rewrite (read_file_found _ _ _ (index_file_found d Hd)).
+    unfold index_text. rewrite split_join_nl.
+    - rewrite find_line_index.
+      + rewrite (def_path_eq d Hd), (read_file_found _ _ _ (def_file_found d Hd)). reflexivity.
+      + intros x Hx. apply filter_In in Hx. tauto.
+      + apply filter_In. split; [exact Hd|apply bytes_eqb_refl].
+    - intros X. apply map_eq_nil in X.
+      assert (Hin : In d (filter (fun d0 => bytes_eqb (md_pkg d0) (md_pkg d)) defs))
+        by (apply filter_In; split; [exact Hd|apply bytes_eqb_refl]).
+      rewrite X in Hin. destruct Hin.
+    - apply Forall_forall. intros l Hl. apply in_map_iff in Hl. destruct Hl as (x & <- & Hx).
+      apply filter_In in Hx. apply index_line_no_nl. tauto.
+  Qed.
+End Universe.
+
+(* ------------------------------------------------------------------------------------------ *)
+(* the scan of a definition of the universe, the loop, the result                              *)
+
+Lemma render_empty pkg l : nonempty_b (render_dline l) = false -> ref_of pkg l = None.
+Proof.
+  destruct l as [c| |ty suf rest]; try reflexivity. intros H. exfalso. cbn [render_dline] in H.
+  destruct (ftype_text ty); destruct suf; discriminate H.
+Qed.
+
+Lemma ftype_vis ty : ftype_ok ty = true -> forallb ascii_vis (ftype_text ty) = true.
+Proof.
+  destruct ty as [p|n|p n]; cbn [ftype_ok ftype_text]; intros H.
+  - apply prim_props, nm_props in H. tauto.
+  - apply name_pkg_ok in H. destruct H as [H _]. apply nm_props in H. tauto.
+  - apply andb_true_iff in H. destruct H as [H1 H2]. apply name_pkg_ok in H2. destruct H2 as [H2 _].
+    apply nm_props in H1, H2. rewrite forallb_app. cbn [forallb].
+    destruct H1 as (_ & _ & _ & _ & _ & _ & _ & ->). destruct H2 as (_ & _ & _ & _ & _ & _ & _ & ->). reflexivity.
+Qed.
+
+Lemma render_no_nl l : dline_ok l = true -> contains_byte 10 (render_dline l) = false.
+Proof.
+  destruct l as [c| |ty suf rest]; cbn [dline_ok render_dline]; [| reflexivity |].
+  - unfold comment_ok. rewrite andb_true_iff, negb_true_iff. intros [H _]. simpl. exact H.
+  - rewrite !andb_true_iff. intros [[H1 H2] H3]. unfold rest_ok in H3.
+    rewrite !andb_true_iff, negb_true_iff in H3. destruct H3 as [[_ H3] _].
+    rewrite !contains_byte_app. cbn [contains_byte]. rewrite (vis_no10 _ (ftype_vis ty H1)), H3.
+    assert (Hs : forallb ascii_vis suf = true).
+    { destruct suf; [reflexivity|]. simpl in H2. apply andb_true_iff in H2. tauto. }
+    rewrite (vis_no10 _ Hs). reflexivity.
+Qed.
+
+Lemma text_fields d : forallb dline_ok (md_lines d) = true ->
+  fields_by 10 (text_of d) = filter nonempty_b (map render_dline (md_lines d)).
+Proof.
+  intros H. rewrite fields_filter. unfold text_of. destruct (md_lines d) as [|l ls] eqn:E; [reflexivity|].
+  rewrite split_join_nl; [reflexivity|discriminate|].
+  apply Forall_forall. intros x Hx. apply in_map_iff in Hx. destruct Hx as (y & <- & Hy).
+  apply render_no_nl. exact (forallb_In _ _ _ H Hy).
+Qed.
+
+Lemma fresh_spec refs : forall seen,
+  NoDup (fresh refs seen) /\ forall x, In x (fresh refs seen) -> In x refs /\ ~ In x seen.
+Proof.
+  induction refs as [|q r IH]; intros seen; simpl; [split; [constructor|tauto]|].
+  destruct (mem_b q seen) eqn:E.
+  - destruct (IH seen) as [H1 H2]. split; auto. intros x Hx. destruct (H2 x Hx). auto.
+  - destruct (IH (seen ++ [q])) as [H1 H2]. apply mem_b_false in E. split.
+    + constructor; auto. intros Hin. destruct (H2 q Hin) as [_ Hn]. apply Hn. apply in_or_app. right. left. reflexivity.
+    + intros x [<-|Hx]; [auto|]. destruct (H2 x Hx) as [Ha Hb]. split; auto.
+      intros Hin. apply Hb. apply in_or_app. auto.
+Qed.
+
+Lemma not47_eqb b : is_byte b 47 = false -> Byte.eqb x2f b = false.
+Proof.
+  intros H. destruct (Byte.eqb x2f b) eqn:E; auto. apply byte_eqb_eq in E. subst. discriminate H.
+Qed.
+
+(* strings.Replace(q, "/msg/", "/", 1) on "pkg/msg/Name" *)
+Lemma replace_msg_type p n : noslash p -> replace_msg (p ++ x2f :: s_msg_word ++ x2f :: n) = p ++ x2f :: n.
+Proof.
+  intros Hp. induction p as [|b p IH]; [reflexivity|].
+  unfold noslash in Hp. simpl in Hp. apply orb_false_iff in Hp. destruct Hp as [Hb Hp].
+  cbn [app replace_msg]. change s_msg with [x2f; x6d; x73; x67; x2f]. cbn [Db3.starts_with].
+  rewrite (not47_eqb b Hb). cbn [andb]. f_equal. apply IH. exact Hp.
+Qed.
+
+Lemma assemble_mono t dirs : forall f queue seen first buf r,
+  assemble f t dirs queue seen first buf = Ok r -> forall f', f <= f' -> assemble f' t dirs queue seen first buf = Ok r.
+Proof.
+  induction f as [|f IH]; intros queue seen first buf r H f' Hle; [discriminate H|].
+  destruct f' as [|f']; [lia|]. destruct queue as [|sd rest]; [exact H|].
+  rewrite assemble_S in *.
+  destruct (if first then Ok buf else _) as [b1| | | |]; try discriminate H. cbn [bind] in *.
+  destruct (scan_lines t dirs sd (fields_by 10 (sd_schema sd)) seen rest) as [[s q]| | | |]; try discriminate H.
+  cbn [bind] in *. apply IH with (f' := f') in H; [exact H|lia].
+Qed.
+
+Lemma sum_weight_ge l : length l <= sum_weight l.
+Proof. induction l as [|f l IH]; simpl; lia. Qed.
+
+Section Universe2.
+  Variable dir : list bytes.
+  Variable defs : list mdef.
+  Hypothesis Hwf : wf_defs defs = true.
+
+  Let T := tree_of dir defs.
+  Let types := map type_of defs.
+
+  Definition text_for (q : bytes) : bytes := match lookup defs q with Some d => text_of d | None => [] end.
+  Definition mk_sd (parent q : bytes) : subdef := {| sd_parent := parent; sd_type := q; sd_schema := text_for q |}.
+
+  Lemma map_mk p new : map sd_type (map (mk_sd p) new) = new.
+  Proof. induction new as [|q r IH]; simpl; [|rewrite IH]; reflexivity. Qed.
+
+  Lemma in_types q : In q types -> exists d, In d defs /\ type_of d = q.
+  Proof. intros H. apply in_map_iff in H. destruct H as (d & H1 & H2). eauto. Qed.
+
+  Lemma text_for_type d : In d defs -> text_for (type_of d) = text_of d.
+  Proof. intros Hd. unfold text_for. rewrite (lookup_type defs Hwf d Hd). reflexivity. Qed.
+
+  Lemma scan_dlines d sd : In d defs -> sd_type sd = type_of d -> forall ls,
+    forallb dline_ok ls = true -> (forall q, In q (refs_of_lines (md_pkg d) ls) -> In q types) ->
+    forall seen queue,
+    scan_lines T [dir] sd (filter nonempty_b (map render_dline ls)) seen queue =
+    Ok (seen ++ fresh (refs_of_lines (md_pkg d) ls) seen,
+        queue ++ map (mk_sd (md_pkg d)) (fresh (refs_of_lines (md_pkg d) ls) seen)).
+  Proof.
+    intros Hd Hty. destruct (def_parts defs Hwf d Hd) as (Hpkg & _).
+    assert (Hpar : parent_of sd = md_pkg d).
+    { unfold parent_of. rewrite Hty, (type_split defs Hwf d Hd). reflexivity. }
+    induction ls as [|l ls IH]; intros Hok Href seen queue.
+    - simpl. rewrite !app_nil_r. reflexivity.
+    - cbn [forallb] in Hok. apply andb_true_iff in Hok. destruct Hok as [Hl Hok].
+      cbn [map filter]. destruct (nonempty_b (render_dline l)) eqn:En.
+      + rewrite scan_lines_cons, Hpar, (line_ref_render _ _ Hpkg Hl).
+        destruct (ref_of (md_pkg d) l) as [q|] eqn:Er.
+        * assert (Hr : refs_of_lines (md_pkg d) (l :: ls) = q :: refs_of_lines (md_pkg d) ls)
+            by (unfold refs_of_lines; cbn [flat_map]; rewrite Er; reflexivity).
+          rewrite Hr in *. destruct (in_types q (Href q (or_introl eq_refl))) as (d' & Hd' & <-).
+          unfold T. rewrite (get_schema_universe dir defs Hwf d' Hd'). cbn [bind].
+          unfold enqueue. cbn [fresh]. destruct (mem_b (type_of d') seen); cbn [fst snd].
+          -- apply IH; auto. intros x Hx. apply Href. right. exact Hx.
+          -- fold T. rewrite IH; auto; [|intros x Hx; apply Href; right; exact Hx].
+             cbn [map].
+             change (mk_sd (md_pkg d) (type_of d'))
+               with {| sd_parent := md_pkg d; sd_type := type_of d'; sd_schema := text_for (type_of d') |}.
+             rewrite (text_for_type d' Hd'), <- !app_assoc. reflexivity.
+        * assert (Hr : refs_of_lines (md_pkg d) (l :: ls) = refs_of_lines (md_pkg d) ls)
+            by (unfold refs_of_lines; cbn [flat_map]; rewrite Er; reflexivity).
+          rewrite Hr in *. apply IH; auto.
+      + assert (Hr : refs_of_lines (md_pkg d) (l :: ls) = refs_of_lines (md_pkg d) ls)
+          by (unfold refs_of_lines; cbn [flat_map]; rewrite (render_empty _ _ En); reflexivity).
+        rewrite Hr in *. apply IH; auto.
+  Qed.
+
+  Lemma scan_def d sd : In d defs -> sd_type sd = type_of d -> sd_schema sd = text_of d -> forall seen queue,
+    scan_lines T [dir] sd (fields_by 10 (sd_schema sd)) seen queue =
+    Ok (seen ++ fresh (refs_of d) seen, queue ++ map (mk_sd (md_pkg d)) (fresh (refs_of d) seen)).
+  Proof.
+    intros Hd Hty Hsc seen queue. destruct (def_parts defs Hwf d Hd) as (_ & _ & _ & Hl).
+    rewrite Hsc, (text_fields d Hl). apply scan_dlines; auto.
+    intros q Hq. destruct (wf_parts defs Hwf) as (_ & _ & H). exact (H d q Hd Hq).
+  Qed.
+
+  (* the buffer after the definitions of the types in [order] have been appended *)
+  Fixpoint render_q (first : bool) (buf : bytes) (order : list bytes) : bytes :=
+    match order with
+    | [] => buf
+    | q :: r => render_q false (next_buf first buf q ++ text_for q) r
+    end.
+
+  Definition qok (sd : subdef) : Prop := exists d, In d defs /\ sd_type sd = type_of d /\ sd_schema sd = text_of d.
+
+  Lemma fresh_types d seen x : In d defs -> In x (fresh (refs_of d) seen) -> In x types.
+  Proof.
+    intros Hd Hx. destruct (fresh_spec (refs_of d) seen) as [_ H]. destruct (H x Hx) as [Hr _].
+    destruct (wf_parts defs Hwf) as (_ & _ & H3). exact (H3 d x Hd Hr).
+  Qed.
+
+  Theorem assemble_refine : forall f queue seen first buf added,
+    buf_inv first buf queue -> Forall qok queue -> NoDup added -> incl added seen -> incl added types ->
+    length queue + (length defs - length added) <= f ->
+    assemble (S f) T [dir] queue seen first buf = Ok (render_q first buf (bfs f defs (map sd_type queue) seen)).
+  Proof.
+    induction f as [|f IH]; intros queue seen first buf added Hi Hq Hnd Hin Hty Hf.
+    - destruct queue; [reflexivity|simpl in Hf; lia].
+    - destruct queue as [|sd rest]; [reflexivity|].
+      inversion Hq as [|? ? (d & Hd & Hsty & Hsc) Hrest]; subst.
+      rewrite assemble_step by (apply (buf_inv_first _ _ _ Hi); discriminate).
+      pose proof (scan_def d sd Hd Hsty Hsc seen rest) as Es. rewrite Es. cbn [bind].
+      set (new := fresh (refs_of d) seen) in *.
+      destruct (fresh_spec (refs_of d) seen) as [Hn1 Hn2]. fold new in Hn1, Hn2.
+      assert (Hnd2 : NoDup (added ++ new)).
+      { apply NoDup_app_intro; auto. intros x Hx Hx2. destruct (Hn2 x Hx2) as [_ Hn]. apply Hn, Hin, Hx. }
+      assert (Hty2 : incl (added ++ new) types).
+      { apply incl_app; auto. intros x Hx. eapply fresh_types; eauto. }
+      pose proof (NoDup_incl_length Hnd2 Hty2) as Hlen. unfold types in Hlen. rewrite map_length, app_length in Hlen.
+      rewrite (IH _ _ _ _ (added ++ new)); auto.
+      + cbn [map bfs render_q]. rewrite Hsty, (lookup_type defs Hwf d Hd). cbv zeta. fold new.
+        rewrite (text_for_type d Hd), map_app, map_mk, Hsc. reflexivity.
+      + rewrite <- (map_mk (md_pkg d) new) in Es at 1. eapply buf_inv_step; eauto.
+      + apply Forall_app. split; auto. apply Forall_forall. intros s Hs. apply in_map_iff in Hs.
+        destruct Hs as (q & <- & Hq'). assert (Hqt : In q types) by (eapply fresh_types; eauto).
+        destruct (in_types q Hqt) as (d' & Hd' & <-). exists d'. cbn [mk_sd sd_type sd_schema].
+        rewrite (text_for_type d' Hd'). auto.
+      + apply incl_app; [apply incl_appl; exact Hin|apply incl_appr; apply incl_refl].
+      + rewrite !app_length, map_length. simpl in Hf. lia.
+  Qed.
+
+  Lemma bfs_types : forall f queue seen, incl queue types -> incl (bfs f defs queue seen) types.
+  Proof.
+    induction f as [|f IH]; intros queue seen Hq; [intros x []|].
+    destruct queue as [|q rest]; [intros x []|]. cbn [bfs].
+    intros x [<-|Hx]; [apply Hq; left; reflexivity|]. revert x Hx. apply IH.
+    apply incl_app; [intros y Hy; apply Hq; right; exact Hy|].
+    destruct (lookup defs q) as [d|] eqn:El; [|intros y []].
+    destruct (lookup_In _ _ _ El) as [Hd _]. intros y Hy. eapply fresh_types; eauto.
+  Qed.
+
+  Lemma render_q_rest : forall order buf, incl order types ->
+    render_q false buf order = render_rest buf (lookup_all defs order).
+  Proof.
+    induction order as [|q r IH]; intros buf Hin; [reflexivity|].
+    destruct (in_types q (Hin q (or_introl eq_refl))) as (d & Hd & <-).
+    unfold lookup_all. cbn [flat_map render_q]. rewrite (lookup_type defs Hwf d Hd). cbn [opt_list app render_rest].
+    rewrite (text_for_type d Hd). fold (lookup_all defs r).
+    rewrite IH by (intros y Hy; apply Hin; right; exact Hy). f_equal.
+    unfold next_buf, header, type_of. cbn [join_slash].
+    destruct (def_parts defs Hwf d Hd) as (Hp & _). apply nm_props in Hp. destruct Hp as (_ & Hp & _).
+    rewrite (replace_msg_type _ _ Hp). rewrite <- !app_assoc. cbn [app]. rewrite <- !app_assoc. reflexivity.
+  Qed.
+
+  Lemma render_q_first order : incl order types -> render_q true [] order = render_defs (lookup_all defs order).
+  Proof.
+    destruct order as [|q r]; intros Hin; [reflexivity|].
+    destruct (in_types q (Hin q (or_introl eq_refl))) as (d & Hd & <-).
+    unfold lookup_all. cbn [flat_map render_q]. rewrite (lookup_type defs Hwf d Hd). cbn [opt_list app render_defs].
+    rewrite (text_for_type d Hd). fold (lookup_all defs r). unfold next_buf. cbn [app].
+    apply render_q_rest. intros y Hy. apply Hin. right. exact Hy.
+  Qed.
+
+  Lemma weight_defs : S (length defs) <= fs_weight T.
+  Proof.
+    unfold fs_weight. rewrite fold_weight. pose proof (sum_weight_ge (ft_files T)) as H.
+    assert (L : length defs <= length (ft_files T)).
+    { unfold T, tree_of. cbn [ft_files]. rewrite app_length, !map_length. lia. }
+    lia.
+  Qed.
+
+  (* the definition assembled for a type of the universe is the expected one: the definitions of the types reachable
+     from it in breadth-first order of first occurrence (cycles included), separated by the 80 '=' line and the
+     "MSG: pkg/Name" line *)
+  Theorem get_schema_for_universe d : In d defs ->
+    get_schema_for T [dir] (type_of d) = Ok (expected_schema defs (type_of d)).
+  Proof.
+    intros Hd. unfold get_schema_for. unfold T at 1. rewrite (get_schema_universe dir defs Hwf d Hd). cbn [bind].
+    fold T. apply assemble_mono with (f := S (length defs)); [|apply weight_defs].
+    assert (Hty : In (type_of d) types) by (apply in_map; exact Hd).
+    rewrite (assemble_refine (length defs) _ _ _ _ [type_of d]).
+    - cbn [map sd_type]. unfold expected_schema, bfs_order. f_equal. apply render_q_first.
+      apply bfs_types. intros x [<-|[]]. exact Hty.
+    - right. right. auto.
+    - constructor; [|constructor]. exists d. auto.
+    - constructor; [intros []|constructor].
+    - apply incl_refl.
+    - intros x [<-|[]]. exact Hty.
+    - destruct defs; [destruct Hd|]. simpl. lia.
+  Qed.
+
+  Theorem get_schemas_universe : forall tys acc, incl tys types ->
+    get_schemas T [dir] tys acc = Ok (fold_left (fun a ty => sch_set ty (expected_schema defs ty) a) tys acc).
+  Proof.
+    induction tys as [|ty r IH]; intros acc Hin; [reflexivity|].
+    destruct (in_types ty (Hin ty (or_introl eq_refl))) as (d & Hd & <-).
+    cbn [get_schemas fold_left]. rewrite (get_schema_for_universe d Hd). cbn [bind].
+    apply IH. intros y Hy. apply Hin. right. exact Hy.
+  Qed.
+End Universe2.
+
+(* ------------------------------------------------------------------------------------------ *)
+(* the specification does not depend on its fuel; special cases                                *)
+
+Section Universe3.
+  Variable defs : list mdef.
+  Hypothesis Hwf : wf_defs defs = true.
+  Let types := map type_of defs.
+
+  Lemma fresh_types' d seen x : In d defs -> In x (fresh (refs_of d) seen) -> In x types.
+  Proof.
+    intros Hd Hx. destruct (fresh_spec (refs_of d) seen) as [_ H]. destruct (H x Hx) as [Hr _].
+    destruct (wf_parts defs Hwf) as (_ & _ & H3). exact (H3 d x Hd Hr).
+  Qed.
+
+  (* any fuel that covers the queue and the types not yet seen gives the same order *)
+  Lemma bfs_stable : forall f1 f2 queue seen added,
+    incl queue types -> NoDup added -> incl added seen -> incl added types ->
+    length queue + (length defs - length added) <= f1 ->
+    length queue + (length defs - length added) <= f2 ->
+    bfs f1 defs queue seen = bfs f2 defs queue seen.
+  Proof.
+    induction f1 as [|f1 IH]; intros f2 queue seen added Hq Hnd Hin Hty H1 H2.
+    - destruct queue; [destruct f2; reflexivity|simpl in H1; lia].
+    - destruct queue as [|q rest]; [destruct f2; reflexivity|].
+      destruct f2 as [|f2]; [simpl in H2; lia|]. cbn [bfs]. f_equal.
+      assert (Hqt : In q types) by (apply Hq; left; reflexivity).
+      apply in_map_iff in Hqt. destruct Hqt as (d & <- & Hd). rewrite (lookup_type defs Hwf d Hd).
+      set (new := fresh (refs_of d) seen).
+      destruct (fresh_spec (refs_of d) seen) as [Hn1 Hn2]. fold new in Hn1, Hn2.
+      assert (Hnd2 : NoDup (added ++ new)).
+      { apply NoDup_app_intro; auto. intros x Hx Hx2. destruct (Hn2 x Hx2) as [_ Hn]. apply Hn, Hin, Hx. }
+      assert (Hty2 : incl (added ++ new) types).
+      { apply incl_app; auto. intros x Hx. eapply fresh_types'; eauto. }
+      pose proof (NoDup_incl_length Hnd2 Hty2) as Hlen. unfold types in Hlen. rewrite map_length, app_length in Hlen.
+      apply (IH _ _ _ (added ++ new)); auto.
+      + apply incl_app; [intros y Hy; apply Hq; right; exact Hy|]. intros x Hx. eapply fresh_types'; eauto.
+      + apply incl_app; [apply incl_appl; exact Hin|apply incl_appr; apply incl_refl].
+      + rewrite !app_length. simpl in H1. lia.
+      + rewrite !app_length. simpl in H2. lia.
+  Qed.
+
+  Theorem bfs_order_stable ty f : In ty types -> length defs <= f -> bfs f defs [ty] [ty] = bfs_order defs ty.
+  Proof.
+    intros Hty Hf. unfold bfs_order. apply (bfs_stable _ _ _ _ [ty]).
+    - intros x [<-|[]]. exact Hty.
+    - constructor; [intros []|constructor].
+    - apply incl_refl.
+    - intros x [<-|[]]. exact Hty.
+    - destruct defs; [destruct Hty|]. simpl in *. lia.
+    - destruct defs; [destruct Hty|]. simpl. lia.
+  Qed.
+
+  (* (a) a definition without references: the file content *)
+  Theorem expected_leaf d : In d defs -> refs_of d = [] -> expected_schema defs (type_of d) = text_of d.
+  Proof.
+    intros Hd Hr. unfold expected_schema, bfs_order. destruct defs as [|d0 l] eqn:E; [destruct Hd|].
+    rewrite <- E in *. cbn [length bfs]. rewrite (lookup_type defs Hwf d Hd), Hr. cbn [fresh app].
+    replace (bfs (length l) defs [] ([type_of d] ++ [])) with (@nil bytes) by (destruct (length l); reflexivity).
+    unfold lookup_all. cbn [flat_map]. rewrite (lookup_type defs Hwf d Hd). reflexivity.
+  Qed.
+
+  (* (b) one level: the referenced definitions have no references themselves *)
+  Theorem expected_one_level d : In d defs ->
+    (forall q d', In q (refs_of d) -> lookup defs q = Some d' -> refs_of d' = []) ->
+    expected_schema defs (type_of d) = render_defs (d :: lookup_all defs (fresh (refs_of d) [type_of d])).
+  Proof.
+    intros Hd Hleaf. unfold expected_schema.
+    assert (Hb : forall f new seen, (forall q, In q new -> In q (refs_of d)) -> length new <= f ->
+                 bfs f defs new seen = new).
+    { induction f as [|f IH]; intros new seen Hn Hl; [destruct new; [reflexivity|simpl in Hl; lia]|].
+      destruct new as [|q r]; [reflexivity|]. cbn [bfs].
+      assert (Hq : In q types) by (destruct (wf_parts defs Hwf) as (_ & _ & H3); apply (H3 d q Hd); apply Hn; left; reflexivity).
+      apply in_map_iff in Hq. destruct Hq as (d' & <- & Hd'). rewrite (lookup_type defs Hwf d' Hd').
+      rewrite (Hleaf (type_of d') d'); [|apply Hn; left; reflexivity|apply lookup_type; auto].
+      cbn [fresh]. rewrite !app_nil_r. f_equal. apply IH; [intros x Hx; apply Hn; right; exact Hx|simpl in Hl; lia]. }
+    set (new := fresh (refs_of d) [type_of d]).
+    assert (Hnew : bfs_order defs (type_of d) = type_of d :: new).
+    { rewrite <- (bfs_order_stable (type_of d) (S (length new + length defs))); [|apply in_map; exact Hd|lia].
+      cbn [bfs]. rewrite (lookup_type defs Hwf d Hd). fold new. cbn [app]. f_equal. apply Hb; [|lia].
+      intros q Hq. destruct (fresh_spec (refs_of d) [type_of d]) as [_ H]. destruct (H q Hq). auto. }
+    rewrite Hnew. unfold lookup_all. cbn [flat_map]. rewrite (lookup_type defs Hwf d Hd). reflexivity.
+  Qed.
+End Universe3.
+
+(* ------------------------------------------------------------------------------------------ *)
+(* the map returned by getSchemas, as the conversion reads it                                  *)
+
+Lemma schema_of_set ty k v : forall l, schema_of ty (sch_set k v l) = if bytes_eqb k ty then Some v else schema_of ty l.
+Proof.
+  induction l as [|[k' v'] r IH]; [reflexivity|]. cbn [sch_set fst].
+  destruct (bytes_eqb k' k) eqn:E.
+  - apply bytes_eqb_eq in E. subst k'. cbn [schema_of]. destruct (bytes_eqb k ty); reflexivity.
+  - cbn [schema_of]. rewrite IH. destruct (bytes_eqb k' ty) eqn:E2; [|reflexivity].
+    apply bytes_eqb_eq in E2. subst k'. destruct (bytes_eqb k ty) eqn:E3; [|reflexivity].
+    apply bytes_eqb_eq in E3. subst k. rewrite bytes_eqb_refl in E. discriminate.
+Qed.
+
+Lemma schema_of_fold (F : bytes -> bytes) ty : forall tys acc,
+  schema_of ty (fold_left (fun a t => sch_set t (F t) a) tys acc) = if mem_b ty tys then Some (F ty) else schema_of ty acc.
+Proof.
+  induction tys as [|t r IH]; intros acc; [reflexivity|]. cbn [fold_left mem_b]. rewrite IH, schema_of_set.
+  destruct (mem_b ty r); [rewrite orb_true_r; reflexivity|]. rewrite orb_false_r.
+  destruct (bytes_eqb t ty) eqn:E.
+  - apply bytes_eqb_eq in E. subst. rewrite bytes_eqb_refl. reflexivity.
+  - destruct (bytes_eqb ty t) eqn:E2; [|reflexivity]. apply bytes_eqb_eq in E2. subst. rewrite bytes_eqb_refl in E. discriminate.
+Qed.
+
+Definition schemas_of (defs : list mdef) (tys : list bytes) : list (bytes * bytes) :=
+  fold_left (fun a ty => sch_set ty (expected_schema defs ty) a) tys [].
+
+Theorem schemas_of_get defs tys ty : In ty tys -> schema_of ty (schemas_of defs tys) = Some (expected_schema defs ty).
+Proof.
+  intros H. unfold schemas_of. rewrite (schema_of_fold (expected_schema defs)).
+  apply mem_b_In in H. rewrite H. reflexivity.
+Qed.
+
+(* part 2, the two cases apart *)
+Theorem db3_to_mcap_fs_ok o lib compress t dirs topics msgs l :
+  get_schemas t dirs (map t_type (filter (fun x => is_message_type (t_type x)) topics)) [] = Ok l ->
+  db3_to_mcap_fs o lib compress t dirs topics msgs = Ok (db3_to_mcap o lib compress topics (Some l) msgs).
+Proof. intros H. unfold db3_to_mcap_fs. rewrite H. reflexivity. Qed.
+
+Theorem db3_to_mcap_fs_err o lib compress t dirs topics msgs e :
+  get_schemas t dirs (map t_type (filter (fun x => is_message_type (t_type x)) topics)) [] = Err e ->
+  db3_to_mcap_fs o lib compress t dirs topics msgs = Ok (db3_to_mcap o lib compress topics None msgs) /\
+  dr_err (db3_to_mcap o lib compress topics None msgs) = Some EOther /\
+  dr_writes (db3_to_mcap o lib compress topics None msgs) = [].
+Proof. intros H. unfold db3_to_mcap_fs. rewrite H. split; [reflexivity|]. apply db3_err_schemas_failed. Qed.
+
+(* the conversion over the tree of a universe that has the types of all message topics *)
+Theorem db3_to_mcap_fs_universe o lib compress dir defs topics msgs :
+  wf_defs defs = true ->
+  (forall x, In x topics -> is_message_type (t_type x) = true -> In (t_type x) (map type_of defs)) ->
+  let tys := map t_type (filter (fun x => is_message_type (t_type x)) topics) in
+  db3_to_mcap_fs o lib compress (tree_of dir defs) [dir] topics msgs
+  = Ok (db3_to_mcap o lib compress topics (Some (schemas_of defs tys)) msgs) /\
+  forall x, In x topics -> is_message_type (t_type x) = true ->
+            schema_of (t_type x) (schemas_of defs tys) = Some (expected_schema defs (t_type x)).
+Proof.
+  intros Hwf Hin tys. split.
+  - apply db3_to_mcap_fs_ok. fold tys. apply get_schemas_universe; auto.
+    intros ty Hty. unfold tys in Hty. apply in_map_iff in Hty. destruct Hty as (x & <- & Hx).
+    apply filter_In in Hx. destruct Hx. auto.
+  - intros x Hx Hm. apply schemas_of_get. unfold tys. apply in_map. apply filter_In. auto.
+Qed.
